@@ -124,24 +124,39 @@ def _r1(chk, repo, conj):
         # functional form: decided path-sensitively on the value of `key` (cov / prec / anything else). For each case the tests on `key`
         # are evaluated, the CFG is pruned accordingly, and the normal exit must be unreachable unless the matching probe returned True.
         if gp:
-            kname = unparse(gp[0].ast.targets[0].elts[0]) if isinstance(gp[0].ast.targets[0], ast.Tuple) else "key"
-            vname = unparse(gp[0].ast.targets[0].elts[1]) if isinstance(gp[0].ast.targets[0], ast.Tuple) else "value"
+            # functional form, as a table over the variable the hyper-parameter enters through: for `cov` / `prec` the validation must not complete
+            # when the matching probe says False; for any other variable it must not complete at all. The dispatch may be an if/elif chain or a
+            # literal table (variable -> probe) looked up with the key; named tests and unpacked table rows are resolved along each path.
+            from .common import case_valuation, OTHER
+            from ..pathtable import walk_paths
+            from .. import pathtable as _pt
+            from ..pattern import norm as pn
+            CALLTXT = "_get_conjugate_parameter(self.target)"
+            ktxt, vtxt = f"{CALLTXT}[0]", f"{CALLTXT}[1]"
             probes = {"cov": "_check_conjugate_parameter_is_scalar_reciprocal", "prec": "_check_conjugate_parameter_is_scalar_identity"}
-            for case in ("cov", "prec", "<other>"):
-                avoid = set()
-                for t in g.tests():
-                    core, flip = t.ast, False
-                    while isinstance(core, ast.UnaryOp) and isinstance(core.op, ast.Not):
-                        core, flip = core.operand, not flip
-                    tv = _eval_key_test(core, kname, case)
-                    if tv is not None:
-                        tv = (not tv) if flip else tv
-                        avoid.add((t.id, "F" if tv else "T"))          # the edge that cannot be taken for this key
-                    elif isinstance(core, ast.Call) and call_name(core) == probes.get(case) and [unparse(a) for a in core.args] == [vname]:
-                        avoid.add((t.id, "F" if flip else "T"))          # consider only paths on which the matching probe FAILED (returned False)
-                reach = g.reachable_from([g.entry.id], avoid_edges=avoid)
-                if g.exit.id in reach:
-                    if case == "<other>":
+            local_tables = {}
+            for a_ in ast.walk(f):
+                if isinstance(a_, ast.Assign) and len(a_.targets) == 1 and isinstance(a_.targets[0], ast.Name) and isinstance(a_.value, ast.Dict) \
+                        and a_.value.keys and all(isinstance(k_, ast.Constant) for k_ in a_.value.keys):
+                    local_tables[a_.targets[0].id] = {k_.value for k_ in a_.value.keys}
+            for case in ("cov", "prec", OTHER):
+                val = case_valuation(f, ktxt, case, consts=local_tables)
+                # spellings of the key test on the unpacked name are covered by case_valuation (it resolves locals); the probe is assumed to FAIL
+                if case is not OTHER:
+                    val[pn(f"{probes[case]}({vtxt})")] = False
+                _pt.EQUALITIES.clear()
+                if case is not OTHER:
+                    _pt.EQUALITIES[pn(ktxt)] = case
+                try:
+                    ends = walk_paths(f, val, pn, limit=128)
+                finally:
+                    _pt.EQUALITIES.clear()
+                done = [k_ for k_, _ in ends if k_ in ("fall", "return")]
+                unk = [r_ for k_, r_ in ends if k_ in ("unknown", "loop")]
+                if unk:
+                    problems.append(f"validation paths for key == {case!r} are not decidable: {str(unk[0])[:100]}")
+                elif done:
+                    if case is OTHER:
                         problems.append("a hyper-parameter entering through another variable than cov/prec is accepted")
                     else:
                         problems.append(f"functional form for `{case}` is not probed by {probes[case]} with refusal on failure "
@@ -326,12 +341,33 @@ def _r1_legacy(chk, repo):
     store = [n for n in g.nodes if isinstance(n.ast, ast.Assign) and path_of(n.ast.targets[0]) == "self.target"]
     if len(store) != 1:
         raise AnchorError("legacy Conjugate.__init__: store of the target not found")
-    guards = {(_norm(t.ast), lab) for t, lab in g.guards_of(store[0])}
-    basic = [("isinstance(target.likelihood.distribution,(Gaussian,GMRF,RegularizedGaussian,RegularizedGMRF))", "T"),
-             ("isinstance(target.prior,Gamma)", "T"), ("target.prior.dim==1", "T")]
-    miss = [b[0] for b in basic if b not in guards]
-    chk.add("C10-R1", f"{leg.qual}.__init__/family", not miss, site(repo, init), "family, Gamma prior and dim == 1 are required before the target is stored",
-            f"legacy Conjugate stores its target without requiring {miss}", init)
+    # decision table over (plain family, regularized family, Gamma prior, univariate): the target is stored exactly when the family is one of the four,
+    # the prior is a Gamma and it is univariate; everything else raises. Validation split off into a helper is inlined; named tests are resolved.
+    import itertools
+    from .common import canon_fn
+    from ..pathtable import walk_paths
+    from ..pattern import norm as pn
+    v = canon_fn(repo, leg, init, 2)
+    tp = func_params(init)[1]
+    D_, P_ = f"{tp}.likelihood.distribution", f"{tp}.prior"
+    miss, und = [], []
+    for A, B, G, U in itertools.product((True, False), repeat=4):
+        val = {pn(f"isinstance({D_},(Gaussian,GMRF))"): A, pn(f"isinstance({D_},(RegularizedGaussian,RegularizedGMRF))"): B,
+               pn(f"isinstance({D_},(Gaussian,GMRF,RegularizedGaussian,RegularizedGMRF))"): A or B,
+               pn(f"isinstance({P_},Gamma)"): G, pn(f"{P_}.dim==1"): U, pn(f"{P_}.dim!=1"): not U}
+        ends = walk_paths(v, val, pn, stop_pred=lambda a_: isinstance(a_, ast.Assign) and path_of(a_.targets[0]) == "self.target")
+        stored = any(k_ == "stop" for k_, _ in ends)
+        if any(k_ in ("unknown", "loop") for k_, _ in ends):
+            und.append(str([r_ for k_, r_ in ends if k_ in ("unknown", "loop")][:1]))
+            continue
+        should = (A or B) and G and U
+        if stored and not should:
+            miss.append(f"[plain family={A}, regularized family={B}, Gamma prior={G}, univariate={U}] the target is stored")
+        if should and not stored:
+            miss.append(f"[plain family={A}, regularized family={B}, Gamma prior={G}, univariate={U}] a supported pair is refused on every path")
+    chk.decide("C10-R1", f"{leg.qual}.__init__/family", not miss and not und, bool(miss) or not und, site(repo, init),
+               "family, Gamma prior and dim == 1 are required before the target is stored",
+               f"legacy Conjugate validation table: {'; '.join(miss[:3]) or und[:1]}", init)
     probed = any(isinstance(c, ast.Call) and (call_name(c) or "").split(".")[-1] in
                  ("_get_conjugate_parameter", "_check_conjugate_parameter_is_scalar_identity", "_check_conjugate_parameter_is_scalar_reciprocal")
                  for c in ast.walk(init))
